@@ -7,7 +7,8 @@ Theorems about `HcipyVerif.Shift` (spectral phase ramp, row/column extrusion: in
 axis order and ravel order the code uses) and `HcipyVerif.Layer` (the two layers as state machines with
 the random generator as an explicit value), the models tied to hcipy by harness/props/c15.py.
 
-* replay: `finite_reset_is_fresh`, `infinite_reset_is_fresh`, `replay_after_reset`, `replay_after_reset_infinite`,
+* replay: `finite_reset_is_fresh`, `infinite_reset_is_fresh`, `replay_after_reset_params(_infinite)`,
+  `replay_after_reset(_infinite)`, `set_param_then_reset(_infinite)` (setter ; reset ; h = fresh(parameter) ; h),
   `independent_only_on_request`, `independent_draws_fresh_numbers`; `reset_old_counterexample` for D17;
 * spectral shift: `phase_axis_order`, `shift_theorem`, `shift_theorem_multiscale`, `whole_pixel_exact`,
   `finite_layer_translates`; counterexample `shift_axes_swapped_counterexample` (2×3 grid) for D16;
@@ -204,7 +205,7 @@ theorem extrudeN_moves (w : Where) (k : Nat) (L : InfL) (hs : L.screen.length = 
     rfl
   | succ k ih =>
     have hnew : ((List.range (if w.horizontal then L.ny else L.nx)).map
-        (fun j => (⟨L.start, L.hist * 5 + w.code, j⟩ : Sym))).length = w.slice L.nx L.ny := by
+        (fun j => (⟨L.start, L.hist * 5 + w.code, j, L.par⟩ : Sym))).length = w.slice L.nx L.ny := by
       simp [Where.slice]
     have hlen1 : (L.extrude1 w).screen.length = L.ny * L.nx := by
       simp only [InfL.extrude1]
@@ -273,13 +274,13 @@ theorem direction_agrees_with_velocity (L : InfL) (t : Rat) (hs : L.screen.lengt
 
 /-- the hypotheses of `direction_agrees_with_velocity` are satisfiable: a fresh 3×2 layer, wind one pixel per
 unit time along +x: the sample of pixel (0,0) is at pixel (1,0) at `t = 1` -/
-example : ((InfL.new 3 2 (1/4, 1/4) (1/4, 0) 7).evolveWith sideX sideY 1).screen[0 * 3 + 1]?
-    = (InfL.new 3 2 (1/4, 1/4) (1/4, 0) 7).screen[0 * 3 + 0]? := by decide +kernel
+example : ((InfL.new 3 2 (1/4, 1/4) (1/4, 0) ⟨1, 10⟩ 7).evolveWith sideX sideY 1).screen[0 * 3 + 1]?
+    = (InfL.new 3 2 (1/4, 1/4) (1/4, 0) ⟨1, 10⟩ 7).screen[0 * 3 + 0]? := by decide +kernel
 
 /-- **D18.** With the side table of the code before the repair the same step moves the screen *against* the
 wind: the sample of pixel (1,0) is found at pixel (0,0). -/
 theorem direction_old_counterexample :
-    let L := InfL.new 3 2 (1/4, 1/4) (1/4, 0) 7
+    let L := InfL.new 3 2 (1/4, 1/4) (1/4, 0) ⟨1, 10⟩ 7
     (L.evolveWith sideXOld sideYOld 1).screen[0 * 3 + 0]? = L.screen[0 * 3 + 1]? ∧
     (L.evolveWith sideXOld sideYOld 1).screen[0 * 3 + 1]? ≠ L.screen[0 * 3 + 0]? := by decide +kernel
 
@@ -307,54 +308,117 @@ theorem screen_shape (L : InfL) (b : Bool) (t : Rat) :
 /-! ## Replay after reset -/
 
 /-- `reset()` of a finite layer puts it, as a *state*, where a freshly built layer with the same original
-generator is: same generator states, same noise key, centre and time zero. -/
-theorem finite_reset_is_fresh (L : FinL) : L.reset false = FinL.fresh L.nx L.ny L.vel L.orig :=
+generator and the *current* parameters (velocity, Cn², L0) is: same generator states, same noise key, centre and
+time zero. -/
+theorem finite_reset_is_fresh (L : FinL) : L.reset false = FinL.fresh L.nx L.ny L.vel L.par L.orig :=
   L.reset_false_eq_fresh
 
-theorem infinite_reset_is_fresh (L : InfL) : L.reset false = InfL.fresh L.nx L.ny L.delta L.vel L.orig :=
+theorem infinite_reset_is_fresh (L : InfL) :
+    L.reset false = InfL.fresh L.nx L.ny L.delta L.vel L.par L.orig :=
   L.reset_false_eq_fresh
 
-/-- **Replay (finite layer).** Build a layer with a seed, run *any* history `h₁` of evolutions and
-(non-independent) resets, reset: from then on *every* history `h` of evolution times and resets shows exactly
-the screens the freshly built layer shows for `h` — including the screen read right after the reset
-(`h = reset :: …` or the state itself, `finite_reset_is_fresh`). -/
-theorem replay_after_reset (nx ny : Nat) (vel : V2) (seed : Nat) (h₁ h : List Op)
+/-- **Replay, general form (finite layer).** Build a layer with a seed, run *any* history `h₁` of evolutions,
+non-independent resets **and parameter setters**, reset: the layer is then the state of a layer freshly built
+with the same seed and the parameters in force at the reset, so every later history `h` shows exactly the screens
+of that fresh layer. -/
+theorem replay_after_reset_params (nx ny : Nat) (vel : V2) (par : Par) (seed : Nat) (h₁ h : List Op)
     (hh : ∀ o ∈ h₁, o.isIndep = false) :
-    (((FinL.new nx ny vel seed).run h₁).reset false).screens h = (FinL.new nx ny vel seed).screens h ∧
-    (((FinL.new nx ny vel seed).run h₁).reset false).screen = (FinL.new nx ny vel seed).screen := by
-  have hp := (FinL.new nx ny vel seed).run_params h₁
-  have ho := (FinL.new nx ny vel seed).run_orig h₁ hh
-  have : ((FinL.new nx ny vel seed).run h₁).reset false = FinL.new nx ny vel seed := by
-    rw [FinL.reset_false_eq_fresh, hp.1, hp.2.1, hp.2.2, ho]; rfl
+    let L := (FinL.new nx ny vel par seed).run h₁
+    (L.reset false).screens h = (FinL.new nx ny L.vel L.par seed).screens h ∧
+    (L.reset false).screen = (FinL.new nx ny L.vel L.par seed).screen := by
+  intro L
+  have hp : L.nx = nx ∧ L.ny = ny := (FinL.new nx ny vel par seed).run_shape h₁
+  have ho : L.orig = ⟨seed, 0⟩ := (FinL.new nx ny vel par seed).run_orig h₁ hh
+  have : L.reset false = FinL.new nx ny L.vel L.par seed := by
+    rw [FinL.reset_false_eq_fresh, hp.1, hp.2, ho]; rfl
   rw [this]; exact ⟨rfl, rfl⟩
 
-/-- **Replay (infinite layer)**: the same statement; the observation is the whole symbolic screen and the
-sub-pixel offset, so the replayed screens agree sample by sample, and a refused (backwards) evolution in the
+/-- **Replay (finite layer)**, no setters in `h₁`: the replayed screens are those of the layer as it was built —
+for EVERY history `h`, including the screen read right after the reset. -/
+theorem replay_after_reset (nx ny : Nat) (vel : V2) (par : Par) (seed : Nat) (h₁ h : List Op)
+    (hh : ∀ o ∈ h₁, o.isIndep = false) (hs : ∀ o ∈ h₁, o.isSet = false) :
+    (((FinL.new nx ny vel par seed).run h₁).reset false).screens h = (FinL.new nx ny vel par seed).screens h ∧
+    (((FinL.new nx ny vel par seed).run h₁).reset false).screen = (FinL.new nx ny vel par seed).screen := by
+  have h := replay_after_reset_params nx ny vel par seed h₁ h hh
+  have hp := (FinL.new nx ny vel par seed).run_params h₁ hs
+  simp only [hp.1, hp.2] at h
+  have e1 : (FinL.new nx ny vel par seed).vel = vel := rfl
+  have e2 : (FinL.new nx ny vel par seed).par = par := rfl
+  rw [e1, e2] at h
+  exact h
+
+/-- **`set parameter ; reset ; h` = `fresh(parameter) ; h`** (finite layer): changing `Cn_squared`, `L0` or the
+velocity of an existing layer — at any point of any history — and resetting gives the screens of a layer built
+with the new value and the same seed. -/
+theorem set_param_then_reset (nx ny : Nat) (vel : V2) (par : Par) (seed : Nat) (h₁ h : List Op)
+    (hh : ∀ o ∈ h₁, o.isIndep = false) (c l : Rat) (v : V2) :
+    let L := (FinL.new nx ny vel par seed).run h₁
+    ((L.setCn2 c).reset false).screens h = (FinL.new nx ny L.vel { L.par with cn2 := c } seed).screens h ∧
+    ((L.setL0 l).reset false).screens h = (FinL.new nx ny L.vel { L.par with L0 := l } seed).screens h ∧
+    ((L.setVel v).reset false).screens h = (FinL.new nx ny v L.par seed).screens h := by
+  intro L
+  have hp : L.nx = nx ∧ L.ny = ny := (FinL.new nx ny vel par seed).run_shape h₁
+  have ho : L.orig = ⟨seed, 0⟩ := (FinL.new nx ny vel par seed).run_orig h₁ hh
+  refine ⟨?_, ?_, ?_⟩ <;> congr 1 <;> rw [FinL.reset_false_eq_fresh] <;>
+    simp only [FinL.setCn2, FinL.setL0, FinL.setVel, hp.1, hp.2, ho] <;> rfl
+
+/-- **Replay, general form (infinite layer)**: the observation is the whole symbolic screen (every sample tagged
+with the parameters it was generated with) and the sub-pixel offset; a refused (backwards) evolution in the
 history changes nothing. -/
-theorem replay_after_reset_infinite (nx ny : Nat) (delta vel : V2) (seed : Nat) (h₁ h : List Op)
+theorem replay_after_reset_params_infinite (nx ny : Nat) (delta vel : V2) (par : Par) (seed : Nat) (h₁ h : List Op)
     (hh : ∀ o ∈ h₁, o.isIndep = false) :
-    (((InfL.new nx ny delta vel seed).run h₁).reset false).screens h = (InfL.new nx ny delta vel seed).screens h ∧
-    (((InfL.new nx ny delta vel seed).run h₁).reset false).view = (InfL.new nx ny delta vel seed).view := by
-  have hp := (InfL.new nx ny delta vel seed).run_params h₁
-  have ho := (InfL.new nx ny delta vel seed).run_orig h₁ hh
-  have : ((InfL.new nx ny delta vel seed).run h₁).reset false = InfL.new nx ny delta vel seed := by
-    rw [InfL.reset_false_eq_fresh, hp.1, hp.2.1, hp.2.2.1, hp.2.2.2, ho]; rfl
+    let L := (InfL.new nx ny delta vel par seed).run h₁
+    (L.reset false).screens h = (InfL.new nx ny delta L.vel L.par seed).screens h ∧
+    (L.reset false).view = (InfL.new nx ny delta L.vel L.par seed).view := by
+  intro L
+  have hp : L.nx = nx ∧ L.ny = ny ∧ L.delta = delta := (InfL.new nx ny delta vel par seed).run_shape h₁
+  have ho : L.orig = (⟨seed, 0⟩ : Rng).draw (nx + ny) := (InfL.new nx ny delta vel par seed).run_orig h₁ hh
+  have : L.reset false = InfL.new nx ny delta L.vel L.par seed := by
+    rw [InfL.reset_false_eq_fresh, hp.1, hp.2.1, hp.2.2, ho]; rfl
   rw [this]; exact ⟨rfl, rfl⟩
+
+theorem replay_after_reset_infinite (nx ny : Nat) (delta vel : V2) (par : Par) (seed : Nat) (h₁ h : List Op)
+    (hh : ∀ o ∈ h₁, o.isIndep = false) (hs : ∀ o ∈ h₁, o.isSet = false) :
+    (((InfL.new nx ny delta vel par seed).run h₁).reset false).screens h
+      = (InfL.new nx ny delta vel par seed).screens h ∧
+    (((InfL.new nx ny delta vel par seed).run h₁).reset false).view = (InfL.new nx ny delta vel par seed).view := by
+  have h := replay_after_reset_params_infinite nx ny delta vel par seed h₁ h hh
+  have hp := (InfL.new nx ny delta vel par seed).run_params h₁ hs
+  simp only [hp.1, hp.2] at h
+  have e1 : (InfL.new nx ny delta vel par seed).vel = vel := rfl
+  have e2 : (InfL.new nx ny delta vel par seed).par = par := rfl
+  rw [e1, e2] at h
+  exact h
+
+/-- **`set parameter ; reset ; h` = `fresh(parameter) ; h`** (infinite layer).  In particular every row/column
+extruded after `Cn_squared = c ; reset()` carries the *new* strength, like the initial screen. -/
+theorem set_param_then_reset_infinite (nx ny : Nat) (delta vel : V2) (par : Par) (seed : Nat) (h₁ h : List Op)
+    (hh : ∀ o ∈ h₁, o.isIndep = false) (c l : Rat) (v : V2) :
+    let L := (InfL.new nx ny delta vel par seed).run h₁
+    ((L.setCn2 c).reset false).screens h = (InfL.new nx ny delta L.vel { L.par with cn2 := c } seed).screens h ∧
+    ((L.setL0 l).reset false).screens h = (InfL.new nx ny delta L.vel { L.par with L0 := l } seed).screens h ∧
+    ((L.setVel v).reset false).screens h = (InfL.new nx ny delta v L.par seed).screens h := by
+  intro L
+  have hp : L.nx = nx ∧ L.ny = ny ∧ L.delta = delta := (InfL.new nx ny delta vel par seed).run_shape h₁
+  have ho : L.orig = (⟨seed, 0⟩ : Rng).draw (nx + ny) := (InfL.new nx ny delta vel par seed).run_orig h₁ hh
+  refine ⟨?_, ?_, ?_⟩ <;> congr 1 <;> rw [InfL.reset_false_eq_fresh] <;>
+    simp only [InfL.setCn2, InfL.setL0, InfL.setVel, hp.1, hp.2.1, hp.2.2, ho] <;> rfl
 
 /-- the hypothesis of the replay theorems is satisfiable by a non-trivial history -/
-example : ∀ o ∈ [Op.evolve 1, Op.reset false, Op.evolve (3/2)], o.isIndep = false := by decide
+example : (∀ o ∈ [Op.evolve 1, Op.setCn2 4, Op.reset false, Op.evolve (3/2)], o.isIndep = false) ∧
+    (∀ o ∈ [Op.evolve 1, Op.reset false, Op.evolve (3/2)], o.isSet = false) := by decide
 
 /-- **Independent realisation only on request (1)**: without `reset(make_independent_realization=True)`
 in the history the noise of the finite layer is always the one drawn from the seed's generator state. -/
-theorem independent_only_on_request (nx ny : Nat) (vel : V2) (seed : Nat) (h : List Op)
+theorem independent_only_on_request (nx ny : Nat) (vel : V2) (par : Par) (seed : Nat) (h : List Op)
     (hh : ∀ o ∈ h, o.isIndep = false) :
-    ((FinL.new nx ny vel seed).run h).noise = ⟨seed, 0⟩ := by
+    ((FinL.new nx ny vel par seed).run h).noise = ⟨seed, 0⟩ := by
   have hinv : ∀ (h : List Op) (L : FinL), L.Inv → (L.run h).Inv := by
     intro h; induction h with
     | nil => intro L hL; exact hL
     | cons o h ih => intro L hL; exact ih _ (L.step_inv o hL)
-  have h0 : (FinL.new nx ny vel seed).Inv := FinL.reset_inv _ false
-  rw [(hinv h _ h0).1, (FinL.new nx ny vel seed).run_orig h hh]; rfl
+  have h0 : (FinL.new nx ny vel par seed).Inv := FinL.reset_inv _ false
+  rw [(hinv h _ h0).1, (FinL.new nx ny vel par seed).run_orig h hh]; rfl
 
 /-- **Independent realisation only on request (2)**: when requested, the new noise is drawn from the part
 of the stream that lies entirely behind the numbers used so far (fresh numbers), and a later plain reset
@@ -368,7 +432,7 @@ theorem independent_draws_fresh_numbers (L : FinL) (hL : L.Inv) :
 /-- **D17.** Before the repair a reset did not rewind the layer: evolve to `t = 1`, reset, read — the screen
 is the one displaced by `v·1`, not the `t = 0` screen of a fresh layer; and the reported time is wrong. -/
 theorem reset_old_counterexample :
-    let L := FinL.new 4 4 (1, 0) 7
+    let L := FinL.new 4 4 (1, 0) ⟨1, 10⟩ 7
     ((L.stepOld (.evolve 1)).stepOld (.reset false)).screen ≠ L.screen ∧
     (L.stepOld (.evolve 1)).t ≠ 1 ∧
     ((L.step (.evolve 1)).step (.reset false)).screen = L.screen ∧ (L.step (.evolve 1)).t = 1 := by
